@@ -238,10 +238,22 @@ def check_task(res, kinds, sub, mb):
     ann = {}
     for j, c in enumerate(COLS):
         card = len({r[j] for r in consumed if r[j] != ''})
-        cov = int(round(statistics.fmean(float(b[c]) for b in res['cov']), 1))
-        ann[c] = f'{c}-({card}; {cov})'
-    exp_rows = sorted((ann[a], ann[b], s) for (a, b), s in med.items())
-    got_rows = [(r[0], r[1], float(r[2])) for r in res['ranks']]
+        mean_cov = statistics.fmean(float(b[c]) for b in res['cov'])
+        ann[c] = (card, mean_cov)
+    import math
+    import re as _re
+
+    def norm(name):
+        # "<feature>-(<cardinality>; <coverage>)": the statement fixes the cardinality and says the coverage is the mean of the
+        # per-batch percentages; it does not fix how that mean is rounded for display, so floor..ceil of the mean is accepted
+        m = _re.fullmatch(r'(.*)-\((\d+); (-?\d+)\)', name)
+        if not m or m.group(1) not in ann:
+            return name
+        card, mean_cov = ann[m.group(1)]
+        ok = int(m.group(2)) == card and math.floor(mean_cov) <= int(m.group(3)) <= math.ceil(mean_cov)
+        return m.group(1) if ok else name + ' [annotation differs from exact recomputation]'
+    exp_rows = sorted((a, b, s) for (a, b), s in med.items())
+    got_rows = [(norm(r[0]), norm(r[1]), float(r[2])) for r in res['ranks']]
     if sorted(got_rows) != [(a, b, float(s)) for a, b, s in exp_rows]:
         nan_involved = any(x[2] != x[2] for x in got_rows)
         if not nan_involved or len(got_rows) != len(exp_rows):
